@@ -47,6 +47,7 @@ var KnownDeviations = []KnownDeviation{
 	{Scope: "optional-match-after-null-binding-loses-its-matches", Dev: cyref.Deviations{OptionalMatchNullBindingLosesMatch: true}},
 	{Scope: "multi-step-optional-match-inner-joins-leading-steps", Dev: cyref.Deviations{OptionalMatchInnerJoinsLeadingSteps: true}},
 	{Scope: "multi-step-optional-match-is-plain-match", Dev: cyref.Deviations{MultiStepOptionalMatchIsPlainMatch: true}},
+	{Scope: "expansion-from-unbound-node-is-cross-joined-with-earlier-rows", Dev: cyref.Deviations{ExpansionSeedCrossJoinsEarlierFrame: true}},
 	{Scope: "regular-expression-match-is-unanchored", Dev: cyref.Deviations{RegexMatchIsUnanchored: true}},
 	{Scope: "quantifier-counts-null-predicate-as-false", Dev: cyref.Deviations{QuantifierPredicateNullCountsAsFalse: true}},
 	{Scope: "arithmetic-and-sum-coerce-property-through-text", Dev: cyref.Deviations{ArithmeticAndSumCoerceProperty: true}},
@@ -73,6 +74,7 @@ func merge(a, b cyref.Deviations) cyref.Deviations {
 		ListConcatenationReadsNullAsEmpty:          a.ListConcatenationReadsNullAsEmpty || b.ListConcatenationReadsNullAsEmpty,
 		LeadingOptionalMatchYieldsNoRow:            a.LeadingOptionalMatchYieldsNoRow || b.LeadingOptionalMatchYieldsNoRow,
 		RegexMatchIsUnanchored:                     a.RegexMatchIsUnanchored || b.RegexMatchIsUnanchored,
+		ExpansionSeedCrossJoinsEarlierFrame:        a.ExpansionSeedCrossJoinsEarlierFrame || b.ExpansionSeedCrossJoinsEarlierFrame,
 		MultiStepOptionalMatchIsPlainMatch:         a.MultiStepOptionalMatchIsPlainMatch || b.MultiStepOptionalMatchIsPlainMatch,
 		OptionalMatchInnerJoinsLeadingSteps:        a.OptionalMatchInnerJoinsLeadingSteps || b.OptionalMatchInnerJoinsLeadingSteps,
 		OptionalMatchNullBindingLosesMatch:         a.OptionalMatchNullBindingLosesMatch || b.OptionalMatchNullBindingLosesMatch,
@@ -203,7 +205,7 @@ func RunC01(run *core.Run, backend *SQLBackend, queries []Query, b Bounds) {
 			continue
 		}
 		q = q.withParams(m)
-		if q.Source != "enum" && countExpansions(m) >= 2 {
+		if (q.Source != "enum" || len(q.Features) >= 3) && countExpansions(m) >= 2 {
 			run.Add("queries_skipped_two_or_more_expansions", 1)
 			continue
 		}
@@ -222,10 +224,17 @@ func RunC01(run *core.Run, backend *SQLBackend, queries []Query, b Bounds) {
 			lowered[l.Name]++
 			mu.Unlock()
 		}
+		if notClosed(res) {
+			run.Add("statements_not_closed_left_to_C03", 1)
+			continue
+		}
 		stmt := backend.prepare(res)
 		gm.SortLists = strings.Contains(strings.ToLower(q.Text), "collect(")
-		d := q.domain(m, b)
-		ensureKinds(km, kindIDs, d)
+		ds := q.domains(m, b)
+		d := ds[len(ds)-1]
+		for _, dd := range ds {
+			ensureKinds(km, kindIDs, dd)
+		}
 		var evals, agree, outside, sqlErr, refUnknown, refErr, nonEmpty int64
 		firstOutside := ""
 		judge := func(g *gm.Graph) bool {
@@ -280,7 +289,9 @@ func RunC01(run *core.Run, backend *SQLBackend, queries []Query, b Bounds) {
 			}
 			return true
 		}
-		d.Enumerate(judge)
+		for _, dd := range ds {
+			dd.Enumerate(judge)
+		}
 		if q.Source != "enum" {
 			budget := b.Budget
 			if q.Budget > 0 {
